@@ -173,6 +173,14 @@ const FIXED_HISTORIES: &[&[&str]] = &[
     &["f := (n: int) -> int { if n <= 0 { return 0 } return n + f(n - 1) };", "g := f;", "f := (n: int) -> int { return 100 };", "(g(3), f(3))"],
     &["m := mod { a := 1; b := (x: int) -> int { return x + a } };", "a := 50;", "(m.b(1), m.a, a)"],
     &["t := (1, \"s\");", "(p, q) := t;", "p := q;", "(p, q, t)"],
+    // containers built from names whose declared type is wider than their value, then asked for their run-time type
+    &["pick := (n: int) -> int|string { if n > 0 { return n } return \"s\" };", "y := pick(3);", "a := [y, 4];", "r := if o: [int] = a { 7 } else { 0 - 1 };", "r"],
+    &["pick := (n: int) -> int|string { if n > 0 { return n } return \"s\" };", "y := pick(0);", "a := [y, \"t\"];", "k := match a { x: [int] => \"ints\", z: [string] => \"strings\", w: [int|string] => \"mixed\", };", "k"],
+    &["pick := (n: int) -> int|string { if n > 0 { return n } return \"s\" };", "y := pick(3);", "t := (y, 1);", "r := if o: (int, int) = t { 1 } else { 2 };", "(r, t)"],
+    &["pick := (n: int) -> int|string { if n > 0 { return n } return \"s\" };", "y := pick(3);", "s := struct{f := y};", "r := if o: struct{f: int} = s { 1 } else { 2 };", "r"],
+    &["pick := (n: int) -> int|string { if n > 0 { return n } return \"s\" };", "y := pick(3);", "a := [y; 2];", "b := [y] + [5];", "r := ([a, b]~ ? [int] $]);", "std.len(r)"],
+    &["pick := (n: int) -> int|string { if n > 0 { return n } return \"s\" };", "y := pick(3);", "it := [y, 4]~;", "r := if f: () -> (bool, int) = it { 1 } else { 2 };", "r"],
+    &["pick := (n: int) -> int|string { if n > 0 { return n } return \"s\" };", "y := pick(3);", "c := mut [int|string] [y];", "r := if o: mut [int] = c { 1 } else { 2 };", "r"],
 ];
 
 fn check_repl_texts(texts: &[String], names: &[String], rep: &mut Report) {
